@@ -26,7 +26,8 @@ CanonEv(e) ==
   LET f == SigFields(SigBodyOf(e.sig)) IN
   IF ~f.ok THEN "harness.sig"
   ELSE IF f.type # 1 THEN "C11.canon"
-  ELSE IF e.hashdata # CanonCleartext(e.text) \o Trailer(f) THEN "C11.canon"
+  ELSE IF e.claimed_input # CanonCleartext(e.text) \o Trailer(f) THEN "harness.canon-claim"    \* the harness's own proposal of the 7.1 octets
+  ELSE IF ~e.primitive_ok THEN "C11.canon"                    \* PGPy's signature is not over the digest of those octets
   ELSE "ok"
 ForeignEv(e) ==
   LET u == Unframe(e.framed)  f == SigFields(SigBodyOf(e.sig)) IN
